@@ -118,6 +118,8 @@ def sym_int(x=0, base=None):
         return builtins.int(x.conc()) if base is None else builtins.int(x.conc(), base)
     if isinstance(x, p.SymChar):
         x = x.s()
+    if isinstance(x, p.SymNumeral) and base in (None, 10):
+        return x.src
     # SymStr
     import z3
     from symex import core
@@ -208,7 +210,7 @@ def int_to_str(x):
             els.append(p.SymChar(d + 48))
     if neg:
         els.insert(0, "-")
-    return p.SymStr.mk(els)
+    return p.SymNumeral(els, x)
 
 
 def sym_repr(x):
